@@ -1,9 +1,10 @@
 #!/bin/sh
-# MANIFEST.setup_cmd: build the Coq development (full .vo build) and warm the Go build cache. Offline.
-set -e
+# MANIFEST.setup_cmd: build the Coq development (full .vo build, never -vos) and warm the Go build
+# cache. Offline. Every check rebuilds its own proof cone (make <targets>) and its Go driver from
+# /repo on every run, so this is a warm-up: -k keeps going if a file that belongs to a property not
+# yet registered does not compile.
 cd "$(dirname "$0")"
 export GOFLAGS=-mod=mod GOPROXY=off GOSUMDB=off GOTOOLCHAIN=local
-./coqbuild
-
-
+./coqbuild -k > /tmp/verif-setup-coq.log 2>&1 || echo "setup: some Coq files did not build (see /tmp/verif-setup-coq.log); registered checks rebuild their own cones"
+tail -3 /tmp/verif-setup-coq.log
 echo setup-ok
